@@ -297,6 +297,7 @@ pub fn history(cx: &mut Ctx, family: &str, maxops: u64) {
             "entry" | "entryd6" => &[("ins", 14), ("rem", 4), ("entry", 40), ("rawentry", 26), ("rawget", 6), ("drive", 4), ("retain", 2), ("shrink", 1)],
             "clone" => &[("ins", 24), ("rem", 8), ("clone", 10), ("clonefrom", 14), ("eq", 10), ("new", 6), ("drive", 5), ("retain", 2), ("get", 4), ("drop", 2), ("clear", 1), ("reserve", 2)],
             "capacity" => &[("ins", 24), ("rem", 8), ("reserve", 14), ("tryreserve", 16), ("shrink", 14), ("retain", 4), ("drive", 5), ("new", 4), ("entry", 3), ("clear", 1), ("extend", 3)],
+            "par" => &[("ins", 26), ("rem", 8), ("pariter", 30), ("pareq", 6), ("parextend", 3), ("drive", 8), ("new", 3), ("clone", 5), ("retain", 3), ("reserve", 2), ("shrink", 2)],
             "fuse" => &[("ins", 30), ("rem", 6), ("entry", 14), ("rawentry", 8), ("retain", 8), ("drainfilter", 8), ("reserve", 4), ("shrink", 2), ("clone", 5), ("clonefrom", 6), ("iter", 3), ("drive", 3), ("new", 2), ("get", 3)],
             _ => &[("ins", 30), ("get", 8), ("rem", 8), ("clear", 1), ("reserve", 3), ("tryreserve", 2), ("shrink", 3), ("iter", 4), ("retain", 3), ("drainfilter", 3), ("drain", 1), ("intoiter", 1), ("extend", 2), ("fromiter", 1), ("clone", 2), ("clonefrom", 2), ("eq", 2), ("drop", 1), ("entry", 8), ("rawentry", 5), ("rawget", 2), ("new", 2), ("drive", 3)],
         };
@@ -480,6 +481,27 @@ pub fn history(cx: &mut Ctx, family: &str, maxops: u64) {
                 }
             }
             "drop" => op_drop(cx, s),
+            #[cfg(feature = "par")]
+            "pariter" => {
+                let v = cx.rng.below(5);
+                let p = cx.rng.below(6) as usize;
+                crate::par::op_par_iter(cx, s, v, p);
+            }
+            #[cfg(feature = "par")]
+            "pareq" => {
+                let b = *cx.rng.pick(&live);
+                let p = cx.rng.below(6) as usize;
+                if !cx.poisoned[b] {
+                    op_eq_with(cx, s, b, Some(p));
+                }
+            }
+            #[cfg(feature = "par")]
+            "parextend" => {
+                let n = cx.rng.below(40);
+                let ks: Vec<u64> = (0..n).map(|_| cx.rng.below(h.universe)).collect();
+                let p = cx.rng.below(6) as usize;
+                crate::par::op_par_extend(cx, s, ks, p);
+            }
             "entry" => {
                 let k = pick_key(cx, s, &h);
                 let present = cx.refs[s].as_ref().unwrap().contains_key(&k);
